@@ -473,37 +473,42 @@ Definition a_pre (delayed : bool) :=                               (* "synapse.s
   if delayed then [I_synapse; I_spike] else [I_connection; I_synspike].
 
 (* register_cell of each type.  dt = code of cell.connection.dt; cdel = cell.connection.delayedby is not None;
-   hp = code of the per-cell hyperparameter override (shifts the time constants: tc = base + hp).
+   hp = code of the per-cell hyperparameter overrides (see hp_d below).
    hand-transcribed: two_factor_stdp.py:232-334 (STDP), 1012-1227 (TripletSTDP); three_factor_stdp.py:347-483
    (MSTDPET), 790-926 (MSTDP); homeostasis.py:163-194; delay_adj_two_factor_stdp.py:138-229 and
    delay_adj_three_factor_stdp.py:144-235; kernel_stdp.py:199-258 *)
+(* per-cell hyperparameter overrides, one decimal digit (0/1) each: hp = d0 + 10 d1 + 100 d2 + 1000 d3 with
+   tc_post = base + d0, tc_pre = base + d1, |lr_post| = 1 + d2, |lr_pre| = 1 + d3 *)
+Definition hp_d (hp k : Z) : Z := ((hp / k) mod 2)%Z.
 Definition trainer_specs (ty : ttype) (dt : Z) (cdel : bool) (hp : Z) : list mspec :=
+  let tpost := hp_d hp 1 in let tpre := hp_d hp 10 in
+  let alpost := (1 + hp_d hp 100)%Z in let alpre := (1 + hp_d hp 1000)%Z in
   match ty with
   | TSTDP dl =>
       let d := dl && cdel in
-      [ mkSpec n_trace_post a_post false [(k_dt, dt); (k_amp, 1%Z); (k_tc, (20 + hp)%Z); (k_trace, 0%Z)] true None;
+      [ mkSpec n_trace_post a_post false [(k_dt, dt); (k_amp, alpre); (k_tc, (20 + tpost)%Z); (k_trace, 0%Z)] true None;
         mkSpec n_spike_post a_post false [(k_dt, dt)] true None;
         mkSpec n_trace_pre (a_pre d) false
-               [(k_dt, dt); (k_amp, 1%Z); (k_tc, (20 + hp)%Z); (k_trace, 0%Z); (k_delayed, zb d)] true None;
+               [(k_dt, dt); (k_amp, alpost); (k_tc, (20 + tpre)%Z); (k_trace, 0%Z); (k_delayed, zb d)] true None;
         mkSpec n_spike_pre (a_pre d) false [(k_dt, dt); (k_delayed, zb d)] true None ]
   | TMSTDPET =>
-      [ mkSpec n_trace_post a_post false [(k_dt, dt); (k_amp, 1%Z); (k_tc, (20 + hp)%Z)] true None;
+      [ mkSpec n_trace_post a_post false [(k_dt, dt); (k_amp, alpre); (k_tc, (20 + tpost)%Z)] true None;
         mkSpec n_spike_post a_post false [(k_dt, dt)] true None;
-        mkSpec n_trace_pre [I_connection; I_synspike] false [(k_dt, dt); (k_amp, 1%Z); (k_tc, (20 + hp)%Z)] true None;
+        mkSpec n_trace_pre [I_connection; I_synspike] false [(k_dt, dt); (k_amp, alpost); (k_tc, (20 + tpre)%Z)] true None;
         mkSpec n_spike_pre [I_connection; I_synspike] false [(k_dt, dt)] true None;
         mkSpec n_elig_post [I_monitors] true [] false (Some ([n_trace_pre; n_spike_post], true));
         mkSpec n_elig_pre [I_monitors] true [] false (Some ([n_trace_post; n_spike_pre], true)) ]
   | TTriplet dl =>
       let d := dl && cdel in
       [ mkSpec n_trace_post_fast a_post false
-               [(k_dt, dt); (k_amp, 1%Z); (k_tc, (10 + hp)%Z); (k_trace, 0%Z); (k_timing, 0%Z)] true None;
+               [(k_dt, dt); (k_amp, 1%Z); (k_tc, (10 + tpost)%Z); (k_trace, 0%Z); (k_timing, 0%Z)] true None;
         mkSpec n_trace_post_slow a_post false
-               [(k_dt, dt); (k_amp, 1%Z); (k_tc, (20 + hp)%Z); (k_trace, 0%Z); (k_timing, 1%Z)] true None;
+               [(k_dt, dt); (k_amp, 1%Z); (k_tc, (20 + tpost)%Z); (k_trace, 0%Z); (k_timing, 1%Z)] true None;
         mkSpec n_spike_post a_post false [(k_dt, dt)] true None;
         mkSpec n_trace_pre_fast (a_pre d) false
-               [(k_dt, dt); (k_amp, 1%Z); (k_tc, (10 + hp)%Z); (k_trace, 0%Z); (k_delayed, zb d); (k_timing, 0%Z)] true None;
+               [(k_dt, dt); (k_amp, 1%Z); (k_tc, (10 + tpre)%Z); (k_trace, 0%Z); (k_delayed, zb d); (k_timing, 0%Z)] true None;
         mkSpec n_trace_pre_slow (a_pre d) false
-               [(k_dt, dt); (k_amp, 1%Z); (k_tc, (20 + hp)%Z); (k_trace, 0%Z); (k_delayed, zb d); (k_timing, 1%Z)] true None;
+               [(k_dt, dt); (k_amp, 1%Z); (k_tc, (20 + tpre)%Z); (k_trace, 0%Z); (k_delayed, zb d); (k_timing, 1%Z)] true None;
         mkSpec n_spike_pre (a_pre d) false [(k_dt, dt); (k_delayed, zb d)] true None ]
   | THomeostasis =>
       [ mkSpec n_spike_rate a_post false [(k_dt, dt)] true None ]
